@@ -15,6 +15,44 @@ def fuzz(target, seconds, **kw):
 
 
 PROPS = {
+    "C07": {
+        "rule": "cases: 1-6 records with generated label sets (missing labels, mixed-case and padded values) and lines, x one "
+                "rewriting stage: label_format with 1-3 renames dst=src (src/dst present or absent, src==dst) and templates from a "
+                "mini-grammar the harness expands itself (literals, .label, __line__, __timestamp__ | unixEpochNanos, "
+                "__timestamp__.Unix, upper/lower/ToUpper/ToLower/trim, printf, default) incl. deliberately failing ones; "
+                "line_format with the same grammar; drop/keep with name lists and =,!=,=~,!~ matchers; decolorize over lines "
+                "assembled from plain chunks (that look like SGR parameters) and SGR sequences; oracle through "
+                "Engine.Eval('{} | stage'): one entry per record, line and label set equal to the reference expansion (decolorize: "
+                "exactly the concatenated plain chunks), failing template => target unchanged and __error__ present; non-trivial "
+                "= a rename with src present and src != dst, a template referencing a label or the line, a drop/keep removing some "
+                "but not all labels, or a line with a colour sequence; distinct by case hash",
+        "assumptions": [
+            "templates of one stage never reference a label set or renamed by the same stage; rename chains are not generated",
+            "plain chunks contain no ESC, U+009B or BEL; a label is never in both the name list and the matcher list of one drop/keep",
+        ],
+        "quick": [rapid("TestC07", 2000)],
+        "thorough": [rapid("TestC07", 8000, shards=16, timeout=2400)],
+    },
+    "C06": {
+        "rule": "cases: 1-6 records whose lines are rendered from generated structure - JSON objects (strings with escapes/Unicode, "
+                "int64-range ints, floats in several spellings, bools, null, nested objects/arrays to depth 3, keys needing "
+                "sanitisation), logfmt pairs (quoted, empty, bare keys), promtail-packed entries, delimiter-separated lines - with "
+                "pre-existing record labels that collide with field names, x one parser stage (json/logfmt with no arguments, a "
+                "field list, or path/rename expressions to existing and missing leaves and subtrees; regexp; pattern; unpack), x "
+                "malformed variants (truncated at a random byte, syntactically broken, not JSON at all, unterminated logfmt quote, "
+                "non-object JSON); oracle through Engine.Eval('{} | stage'): one entry per record, line byte-identical (unpack: "
+                "the _entry value), label set equal to record labels overridden/extended by exactly the requested fields with "
+                "exactly their values (nested values JSON-equivalent), malformed lines kept unchanged and flagged; non-trivial = "
+                "a malformed line, or a field that needed escaping/sanitising or overrode an existing label; distinct by case hash",
+        "assumptions": [
+            "a valid JSON object followed by trailing garbage is not treated as malformed (neither jx nor Loki's own parser reject it; first version of the check did - a false alarm, removed)",
+            "duplicate keys, two keys with the same sanitised form, and nulls inside nested values are not generated",
+            "a non-matching regexp/pattern line is only required to be kept unchanged; pattern lines are generated to match",
+            "JSON path expressions never select a null",
+        ],
+        "quick": [rapid("TestC06", 2000)],
+        "thorough": [rapid("TestC06", 8000, shards=16, timeout=2400)],
+    },
     "C18": {
         "rule": "cases: 1-5 fake containers with generated logs and Docker labels x a log / metric / binary-operation query; every "
                 "case is evaluated under ALL n! completion orders of the concurrent per-container ContainerLogs calls (n<=5, up "
